@@ -71,9 +71,9 @@ CLAIMED = {
    "Trusted: the bounds are a reading of 'small bounded number of attempts and bounded time': 45 s for a request during the outage to fail, 10 s for an open tunnel to close, recovery within 30 probes 1.5 s apart, 2.5 s worst reference round trip. Blackhole (packet drop) faults are not generated.",
    "generated fault sequences (fault x phase x connector kind) against real processes, oracle = bounded recovery + clean failure + isolation of a reference tunnel", "§3 C19"),
  "C18": ("vp-inproc", "exploration",
-   "Part (a): 4 000 (quick) / 300 000 (thorough) configuration documents obtained from three bases by tree mutations (delete / retype / duplicate / randomise / rename, targeted path and address replacement), generated load-balancer member graphs and generated scripts as filter / hashBy / log format are run through main()'s loading sequence on the real functions; the result must be Ok or an error with a message within 30 s, never a panic. The real-binary parts (--test vs start-up differential, POST /api/rules with arbitrary JSON, nesting ladder, cyclic load balancers under traffic) are added with the e2e engine.",
-   "Trusted: the re-enactment of main() in the harness (kept line-for-line); access-log paths are redirected into the scratch directory.",
-   "proptest structural mutation fuzzing of configuration trees, oracle = Ok/Err, no panic", "§3 C18(a)"),
+   "(a) 4 000 (quick) / 300 000 (thorough) configuration documents obtained from three bases by tree mutations (delete / retype / duplicate / randomise / rename, targeted path and address replacement), generated load-balancer member graphs and generated scripts as filter / hashBy / log format are run through main()'s loading sequence on the real functions: Ok or an error with a message within 30 s, never a panic. (b) 220 / 6 000 of the same documents on the real binary: `redproxy-rs -t` must exit 0 or with a message (no signal, no panic); every accepted document is started for real and receives traffic on every listener by kind plus API GETs: alive afterwards, no task panicked, every listener still accepts. (c) 500 / 30 000 generated bodies to POST /api/rules of a running real proxy (rule lists with generated / hostile / chain filters and mistyped fields, other JSON shapes, raw bytes, truncations), each followed by a request that evaluates the rules in force: an HTTP status, process alive, API answers. (d) a ladder of 37 syntactic constructs x 11 (20) sizes up to 16 384 (262 144), via -t and via POST: accepted or rejected in bounded time, never a crash.",
+   "Trusted: the re-enactment of main() in the harness for (a) (kept line-for-line; (b) runs the real main); access-log paths are redirected into the scratch directory; stack depth is that of the dev-profile binary (2 MB worker threads), the deepest configuration in use.",
+   "proptest structural mutation fuzzing of configuration trees and JSON bodies against the loader and the real binary + bounded enumeration of a size ladder, oracle = Ok/Err with message, no panic / signal, liveness after traffic", "§3 C18"),
  "C10": ("vp-e2e", "exploration",
    "Two real proxies (A in front of B): all 3 x 5 UDP listener x upstream pairings (SOCKS5 UDP ASSOCIATE with enforceUdpClient off/on, reverse-UDP, HTTP CONNECT with inline RPFM frames) x (direct, socks5->B, http->B, QUIC datagrams->B, QUIC inline->B) once each, then 30 (quick) / 1 500 (thorough) generated cases of 1-5 interleaved sessions sending datagrams of 0..65000 bytes to three tagging echo origins, incl. clients that vanish while a reply is in flight; every datagram must reach the addressed origin exactly once unmodified (also the first of a session and multi-fragment ones), every reply must return to the owning client labelled with the replying origin, and no origin may receive a datagram nobody sent.",
    "Trusted: loopback does not lose or reorder datagrams at the pacing used (one outstanding datagram per session); refcodec for the SOCKS5-UDP header and RPFM frames. TPROXY UDP is not set up. In this sandbox an ICMP port-unreachable is not delivered to the proxy's connected session socket, so the receive-error path of UdpFrameReader is not reachable.",
